@@ -761,3 +761,177 @@ Section AnySampler.
     - apply aggregate_unit; auto; [apply rates_unit; intro t; now apply s_fnr_unit|apply rates_at_length].
   Qed.
 End AnySampler.
+
+(* ====================================================================== *)
+(* F. the experimental band functions: well-formedness                     *)
+(* ====================================================================== *)
+(* rows that are numbers (no range claim), ordered or not *)
+Definition some_rows (n : nat) (ci : list (rate * rate)) : Prop :=
+  length ci = n /\ forall j, (j < n)%nat -> exists lo hi, nth j ci (None, None) = (Some lo, Some hi).
+Definition ordered_rows (ci : list (rate * rate)) : Prop :=
+  forall j lo hi, nth j ci (None, None) = (Some lo, Some hi) -> lo <= hi.
+
+Lemma some_rows_lift n ci : some_rows n ci -> exists cq, ci = map lift2 cq /\ length cq = n.
+Proof.
+  revert n. induction ci as [|[a b] ci IH]; intros n [L U].
+  - exists []. simpl in *. auto.
+  - destruct n as [|n]; [simpl in L; lia|].
+    destruct (IH n) as (cq & -> & Lq). { split; [simpl in L; lia|]. intros j Hj. apply (U (S j)). lia. }
+    destruct (U 0%nat ltac:(lia)) as (lo & hi & E). simpl in E. injection E as -> ->.
+    exists ((lo, hi) :: cq). simpl. split; [reflexivity|lia].
+Qed.
+Lemma all_some_lift (l : list rate) : (forall j, (j < length l)%nat -> exists v, nth j l None = Some v) -> exists lq, l = map Some lq.
+Proof.
+  induction l as [|a l IH]; intro U; [exists []; reflexivity|].
+  destruct IH as [lq ->]. { intros j Hj. apply (U (S j)). simpl. lia. }
+  destruct (U 0%nat ltac:(simpl; lia)) as (v & E). simpl in E. subst a. exists (v :: lq). reflexivity.
+Qed.
+
+(* aggregation of NaN-free rectangles: NaN-free, one row per point, ordered when the inputs' y-limits are *)
+Lemma aggregate_some x dxp dyp n :
+  (forall j, (j < length x)%nat -> exists v, nth j x None = Some v) -> length x = n -> some_rows n dxp -> some_rows n dyp ->
+  some_rows n (aggregate_rectangles x dxp dyp) /\ (ordered_rows dyp -> ordered_rows (aggregate_rectangles x dxp dyp)).
+Proof.
+  intros Ux Lx Udx Udy.
+  destruct (all_some_lift x Ux) as [xq ->]. rewrite map_length in Lx.
+  destruct (some_rows_lift n dxp Udx) as (dxq & -> & Ldx). destruct (some_rows_lift n dyp Udy) as (dyq & -> & Ldy).
+  split.
+  - split; [rewrite aggregate_length; rewrite !map_length; lia|]. intros j Hj. rewrite aggregate_envelope by lia. eauto.
+  - intros Ho j lo hi E.
+    destruct (Nat.lt_ge_cases j n) as [Hj|Hj].
+    + rewrite aggregate_envelope in E by lia. injection E as <- <-.
+      apply aggregate_ordered; [lia|lia|]. apply (Ho j). rewrite nth_map_in with (d' := (0, 0)) by lia. reflexivity.
+    + rewrite nth_overflow in E by (rewrite aggregate_length; rewrite !map_length; lia). discriminate.
+Qed.
+
+Lemma shift_ci_rows (p : list rate) delta : (forall j, (j < length p)%nat -> exists v, nth j p None = Some v) -> 0 <= delta ->
+  some_rows (length p) (shift_ci p delta) /\ ordered_rows (shift_ci p delta).
+Proof.
+  intros Hp Hd. unfold shift_ci.
+  assert (N : forall j, (j < length p)%nat -> exists v, nth j p None = Some v /\
+              nth j (map (fun r : rate => (rsub r (Some delta), radd r (Some delta))) p) (None, None) = (Some (v - delta), Some (v + delta))).
+  { intros j Hj. destruct (Hp j Hj) as [v Ev]. exists v. split; [exact Ev|].
+    rewrite nth_map_in with (d' := (None : rate)) by exact Hj.
+    cbv beta. rewrite Ev. reflexivity. }
+  split.
+  - split; [apply map_length|]. intros j Hj. destruct (N j Hj) as (v & _ & E). eauto.
+  - intros j lo hi E. destruct (Nat.lt_ge_cases j (length p)) as [Hj|Hj].
+    + destruct (N j Hj) as (v & _ & E'). pose proof (eq_trans (eq_sym E) E') as X. injection X as -> ->. lra.
+    + rewrite nth_overflow in E by (rewrite map_length; lia). discriminate.
+Qed.
+
+Section Experimental.
+  Variable succ pred : Q -> Q.
+  Variable ksone_ppf : Q -> Z -> Q.
+
+  (* simultaneous_joint_region_ci: rates at the returned thresholds, bands NaN-free, one row per point, ordered
+     (the KS critical values are non-negative); the bands are NOT confined to [0,1] (rate -+ delta) *)
+  Theorem sjr_wellformed s fnr0 fpr0 thr0 nb_points alpha c :
+    proper s -> (forall q n, 0 <= ksone_ppf q n) ->
+    simultaneous_joint_region_ci succ pred ksone_ppf s fnr0 fpr0 thr0 nb_points alpha = Ret c ->
+    find_support_thresholds succ pred s fnr0 fpr0 thr0 nb_points default_nb_extra_points default_x_axis = Ret (rc_thresholds c) /\
+    rc_fnr c = rates_at s_fnr s (rc_thresholds c) /\ rc_fpr c = rates_at s_fpr s (rc_thresholds c) /\
+    exists fb pb, rc_fnr_ci c = Some fb /\ rc_fpr_ci c = Some pb /\
+      some_rows (length (rc_thresholds c)) fb /\ some_rows (length (rc_thresholds c)) pb /\ ordered_rows fb /\ ordered_rows pb.
+  Proof.
+    intros Hs Hk. unfold simultaneous_joint_region_ci. intro E. apply rbind_ret in E. destruct E as (ths & Eth & E).
+    injection E as <-. cbn [rc_thresholds rc_fnr rc_fpr rc_fnr_ci rc_fpr_ci].
+    split; [exact Eth|]. split; [reflexivity|]. split; [reflexivity|]. eexists _, _. split; [reflexivity|]. split; [reflexivity|].
+    assert (F : forall j, (j < length (rates_at s_fnr s ths))%nat -> exists v, nth j (rates_at s_fnr s ths) None = Some v).
+    { intros j Hj. unfold rates_at in *. rewrite map_length in Hj. rewrite nth_map_in with (d' := 0) by exact Hj. now apply s_fnr_some. }
+    assert (P : forall j, (j < length (rates_at s_fpr s ths))%nat -> exists v, nth j (rates_at s_fpr s ths) None = Some v).
+    { intros j Hj. unfold rates_at in *. rewrite map_length in Hj. rewrite nth_map_in with (d' := 0) by exact Hj. now apply s_fpr_some. }
+    destruct (shift_ci_rows _ (ksone_ppf (1 - alpha / 2) (nb_all_pos s)) F (Hk _ _)) as [SF OF].
+    destruct (shift_ci_rows _ (ksone_ppf (1 - alpha / 2) (nb_all_neg s)) P (Hk _ _)) as [SP OP].
+    rewrite rates_at_length in SF, SP.
+    destruct (aggregate_some (rates_at s_fpr s ths) _ _ (length ths) P (rates_at_length _ _ _) SP SF) as [A1 A2].
+    destruct (aggregate_some (rates_at s_fnr s ths) _ _ (length ths) F (rates_at_length _ _ _) SF SP) as [B1 B2].
+    auto 10.
+  Qed.
+End Experimental.
+
+(* fixed_width_band_ci: rates at the returned thresholds, both bands NaN-free with one row per point.  PARTIAL: that
+   lower <= upper is not proved for this method (it rests on the displaced curves staying monotone under np.interp);
+   the oracle checks it on the implementation. *)
+Lemma interp_length x xp fp : length (interp x xp fp) = length x.
+Proof. apply map_length. Qed.
+Lemma combine_some_rows (a b : list Q) n : length a = n -> length b = n -> some_rows n (combine (map Some a) (map Some b)).
+Proof.
+  intros La Lb. split; [rewrite combine_length, !map_length; lia|]. intros j Hj.
+  rewrite combine_nth by (rewrite !map_length; lia).
+  rewrite !nth_map_in with (d' := 0) by lia. eauto.
+Qed.
+Theorem fixed_width_shape succ pred sqrtQ (H : Type) dc bs fuel s fnr0 fpr0 thr0 nb_points alpha cfg (hist : nat -> H) c :
+  fixed_width_band_ci succ pred sqrtQ H dc bs fuel s fnr0 fpr0 thr0 nb_points alpha cfg hist = Ret c ->
+  find_support_thresholds succ pred s fnr0 fpr0 thr0 nb_points default_nb_extra_points default_x_axis = Ret (rc_thresholds c) /\
+  rc_fnr c = rates_at s_fnr s (rc_thresholds c) /\ rc_fpr c = rates_at s_fpr s (rc_thresholds c) /\
+  exists fb pb, rc_fnr_ci c = Some fb /\ rc_fpr_ci c = Some pb /\
+    some_rows (length (rc_thresholds c)) fb /\ some_rows (length (rc_thresholds c)) pb.
+Proof.
+  unfold fixed_width_band_ci. intro E. apply rbind_ret in E. destruct E as (ths & Eth & E).
+  apply rbind_ret in E. destruct E as (ds & _ & E).
+  destruct (nanquantile _ _) as [delta|]; [|discriminate].
+  destruct (negb _); [discriminate|].
+  apply rbind_ret in E. destruct E as ([fp pp] & _ & E). apply rbind_ret in E. destruct E as ([fm pm] & _ & E).
+  injection E as <-. cbn [rc_thresholds rc_fnr rc_fpr rc_fnr_ci rc_fpr_ci].
+  split; [exact Eth|]. split; [reflexivity|]. split; [reflexivity|]. eexists _, _. split; [reflexivity|]. split; [reflexivity|].
+  split; apply combine_some_rows; rewrite interp_length, map_length; apply rates_at_length.
+Qed.
+
+(* ====================================================================== *)
+(* G. roc_with_ci: the bands are the envelopes of the pointwise rectangles *)
+(* ====================================================================== *)
+Lemma unit_rows_some n ci : unit_rows n ci -> some_rows n ci.
+Proof. intros [L U]. split; [exact L|]. intros j Hj. destruct (U j Hj) as (lo & hi & E & _). eauto. Qed.
+
+Section Envelope.
+  Variable succ pred : Q -> Q.
+  Variable pow : Q -> Q -> Q.
+  Variables Phi PhiInv pow15 : Q -> Q.
+  Variable H : Type.
+  Variable dynamic_choice : scores -> config scores -> sampling scores.
+  Variable builtin_sample : sampling scores -> scores -> config scores -> H -> BootCI.res scores.
+
+  Theorem roc_with_ci_bands s fnr0 fpr0 thr0 nb_points x alpha cfg hist c :
+    roc_with_ci succ pred pow Phi PhiInv pow15 H dynamic_choice builtin_sample s fnr0 fpr0 thr0 nb_points x alpha cfg hist = Ret c ->
+    exists fnr_ci fpr_ci,
+      pointwise_intervals succ pred pow Phi PhiInv pow15 H dynamic_choice builtin_sample s (rc_fnr c) (rc_fpr c) alpha cfg hist
+        = Ret (fnr_ci, fpr_ci) /\
+      rc_fnr_ci c = Some (aggregate_rectangles (rc_fpr c) fpr_ci fnr_ci) /\
+      rc_fpr_ci c = Some (aggregate_rectangles (rc_fnr c) fnr_ci fpr_ci).
+  Proof.
+    unfold roc_with_ci. intro E. apply rbind_ret in E. destruct E as (ths & Eth & E).
+    apply rbind_ret in E. destruct E as ([fnr_ci fpr_ci] & Epw & E). injection E as <-.
+    cbn [rc_fnr rc_fpr rc_fnr_ci rc_fpr_ci]. eauto.
+  Qed.
+
+  Hypothesis pow_unit : forall a e, 0 < a -> a < 1 -> 0 <= pow a e /\ pow a e <= 1.
+
+  (* lower <= upper for both bands as soon as every pointwise interval is ordered *)
+  Theorem roc_with_ci_ordered s fnr0 fpr0 thr0 nb_points x alpha cfg hist c fnr_ci fpr_ci :
+    proper s -> 0 < alpha -> alpha < 1 -> (0 < nb_samples cfg)%nat ->
+    samples_proper H dynamic_choice builtin_sample s cfg hist ->
+    roc_with_ci succ pred pow Phi PhiInv pow15 H dynamic_choice builtin_sample s fnr0 fpr0 thr0 nb_points x alpha cfg hist = Ret c ->
+    pointwise_intervals succ pred pow Phi PhiInv pow15 H dynamic_choice builtin_sample s (rc_fnr c) (rc_fpr c) alpha cfg hist
+      = Ret (fnr_ci, fpr_ci) ->
+    ordered_rows fnr_ci -> ordered_rows fpr_ci ->
+    exists fb pb, rc_fnr_ci c = Some fb /\ rc_fpr_ci c = Some pb /\ ordered_rows fb /\ ordered_rows pb.
+  Proof.
+    intros Hs A0 A1 Hn Hsp E Epw O1 O2.
+    destruct (roc_with_ci_bands _ _ _ _ _ _ _ _ _ _ E) as (f' & p' & Epw' & E1 & E2).
+    rewrite Epw in Epw'. injection Epw' as <- <-.
+    destruct (roc_with_ci_wellformed succ pred pow Phi PhiInv pow15 H dynamic_choice builtin_sample pow_unit
+                s fnr0 fpr0 thr0 nb_points x alpha cfg hist c Hs A0 A1 Hn Hsp E) as (_ & F & P & _).
+    pose proof Epw as Epw2. apply (pointwise_unit succ pred pow Phi PhiInv pow15 H dynamic_choice builtin_sample pow_unit) in Epw2; auto;
+      [|rewrite F, P; now rewrite !rates_at_length].
+    destruct Epw2 as [U1 U2]. apply unit_rows_some in U1, U2.
+    assert (SF : forall j, (j < length (rc_fnr c))%nat -> exists v, nth j (rc_fnr c) None = Some v).
+    { rewrite F. intros j Hj. unfold rates_at in *. rewrite map_length in Hj. rewrite nth_map_in with (d' := 0) by exact Hj. now apply s_fnr_some. }
+    assert (SP : forall j, (j < length (rc_fpr c))%nat -> exists v, nth j (rc_fpr c) None = Some v).
+    { rewrite P. intros j Hj. unfold rates_at in *. rewrite map_length in Hj. rewrite nth_map_in with (d' := 0) by exact Hj. now apply s_fpr_some. }
+    assert (LL : length (rc_fpr c) = length (rc_fnr c)) by (rewrite F, P; now rewrite !rates_at_length).
+    destruct (aggregate_some (rc_fpr c) fpr_ci fnr_ci (length (rc_fnr c)) SP LL U2 U1) as [_ A].
+    destruct (aggregate_some (rc_fnr c) fnr_ci fpr_ci (length (rc_fnr c)) SF eq_refl U1 U2) as [_ B].
+    eexists _, _. split; [exact E1|]. split; [exact E2|]. auto.
+  Qed.
+End Envelope.
